@@ -2,6 +2,7 @@ package setec
 
 import (
 	"reflect"
+	"slices"
 	"strings"
 
 	"github.com/tailscale/setec/types/api"
@@ -152,13 +153,50 @@ type verifShapeUnexported struct {
 	A []byte `setec:"a"`
 	b []byte `setec:"b"` // tagged but not exported: cannot be set
 }
+type verifInnerA struct {
+	X []byte `setec:"xa"`
+}
+type verifInnerB struct {
+	X []byte `setec:"xb"`
+}
+
+// two embedded structs with a tagged field of the same name: Go's selector rules make both X ambiguous
+type verifShapeCollision struct {
+	verifInnerA
+	verifInnerB
+	Y []byte `setec:"y"`
+}
+
+// an outer field hides the embedded tagged field of the same name
+type verifShapeShadow struct {
+	verifInnerA
+	X []byte `setec:"outer"`
+}
 type verifShapeNoTags struct {
 	A []byte
 }
 
 func verifHarnessC20Parse() {
 	verifEnvReset()
-	switch nondetChoice("shape", 11) {
+	switch nondetChoice("shape", 13) {
+	case 11:
+		var t verifShapeCollision
+		f, err := ParseFields(&t, "pfx")
+		ok := err != nil
+		if err == nil {
+			names := f.Secrets()
+			ok = and(len(names) == 3, slices.Contains(names, "pfx/xa"), slices.Contains(names, "pfx/xb"), slices.Contains(names, "pfx/y"))
+		}
+		assert("every-tagged-field-is-requested-or-the-struct-is-rejected", ok)
+	case 12:
+		var t verifShapeShadow
+		f, err := ParseFields(&t, "pfx")
+		ok := err != nil
+		if err == nil {
+			names := f.Secrets()
+			ok = and(len(names) == 2, slices.Contains(names, "pfx/xa"), slices.Contains(names, "pfx/outer"))
+		}
+		assert("every-tagged-field-is-requested-or-the-struct-is-rejected", ok)
 	case 10:
 		var t verifShapeUnexported
 		_, err := ParseFields(&t, "pfx") // accepting it would end in a reflect panic when the field is set
